@@ -60,7 +60,7 @@ DIRECTED = [
     ("comm-sync", IDS + "mbox 2\nactor S1.5 G0\nactor G1 S0.6\n", 3, 20),
     ("comm-async", IDS + "mbox 2\nactor s1.5 s0.6 c0 C1\nactor r0 r1 t0 I1 Y c1 t1\nactor d1.9 r1 c0\n", 5, 40),
     ("wait-any", IDS + "mbox 3\nactor s0.1 s1.2 s2.3 s0.4\nactor r0 a\nactor r0 r1 r2 a a a\n", 5, 40),
-    ("test-any", IDS + "mbox 2\nactor s0.1 s1.2 s1.3\nactor z r0 y r1 r1 y y y\n", 6, 40),
+    ("test-any", IDS + "mbox 2\nactor s1.2 s1.3 s0.1\nactor z r0 y r1 r1 y y y\n", 6, 40),
     ("iprobe", IDS + "tag 77\nmbox 2\nactor s1.5\nactor b1.0 b1.1 b0.0 r1\n", 4, 20),
     ("actors", IDS + "actor K2 J1 j2 Y\nactor Q3.9 Q0.0 X\ndyn Y Q1.2\n", 4, 30),
 ]
@@ -150,7 +150,11 @@ def e2e(ctx, mc, app, tmp, name, spec, kind):
         ctx.count("e2e.clear_error")
         return
     what = "uncaught-exception" if "Uncaught exception" in out or "terminate called" in out else "crash"
-    m = re.search(r"Uncaught exception ([\w:]+)", out)
+    m = re.search(r"Uncaught exception ([\w:]+\w)", out)
+    if m:
+        what += ":" + m.group(1)
+    if kind == "generated" and re.search(r" [yz]( |$)", spec, re.M):
+        kind = "generated+test-any"
     ctx.violation("C43:e2e:%s:%s" % (what, kind),
                   "simgrid-mc ends with rc=%s and no message naming an unsupported feature (%s)\nprogram:\n%s\noutput (head):\n%s"
                   % (rc, m.group(0) if m else what, spec, "\n".join(l for l in out.split("\n") if not l.startswith("  #"))[:1200]), wit)
